@@ -2,6 +2,7 @@
 from ..run import Result
 from . import dtlib
 from .common import run_items
+from .grids import stable_hash
 
 ASSUME = [
     'real arithmetic: rounding is not addressed',
@@ -28,13 +29,13 @@ def configs(ctx):
     pairs = [(b, q) for b in dtlib.BIORT for q in dtlib.QSHIFT]
     for (b, q) in pairs:
         for i, (H, W) in enumerate(sizes(ctx)):
-            if ctx.quick and (hash((b, q)) + i) % 4 and (b, q) != ('near_sym_a', 'qshift_a'):
+            if ctx.quick and (stable_hash(b, q) + i) % 4 and (b, q) != ('near_sym_a', 'qshift_a'):
                 continue
             long_f = q in ('qshift_c', 'qshift_d') or b == 'near_sym_b'
             J = 3 if not long_f else 2
             if not ctx.quick and H * W <= 200 and not long_f and (i % 3 == 0):
                 J = 4
-            if not ctx.quick and (hash((b, q, 't')) + i) % 2 and (b, q) != ('near_sym_a', 'qshift_a'):
+            if not ctx.quick and (stable_hash(b, q, 't') + i) % 2 and (b, q) != ('near_sym_a', 'qshift_a'):
                 continue
             items.append((b, q, H, W, J, 1, 2, 2, -1, 0, 0))
     items.append(('near_sym_a', 'qshift_a', 6, 10, 2, 2, 3, 2, -1, 0, 0))
